@@ -137,22 +137,30 @@ Theorem C08_std_paths_ok : forall p idx, std_path p = Some idx -> idx <> [] -> p
 Proof. exact std_paths_ok. Qed.
 Print Assumptions C08_std_paths_ok.
 
-(* --- non-vacuity ---------------------------------------------------- *)
-Definition chars (s : string) : list ascii := list_ascii_of_string s.
+(* derive_from_path on a path in the standard notation is the specification's descent along the standard
+   index list ([il_nonzero_along]: the IL <> 0 side condition of C08_ckd_priv_eq_spec at every step) *)
+Theorem C08_derive_path_eq_spec :
+  forall E x p idx,
+    std_path p = Some idx -> idx <> [] ->
+    (sdepth x <= 255)%N -> il_nonzero_along E x idx ->
+    xprv_derive_path E (model_of_spec E x) p = of_option (option_map (model_of_spec E) (descend_priv E x idx)).
+Proof. exact derive_path_eq_spec. Qed.
+Print Assumptions C08_derive_path_eq_spec.
 
+(* --- non-vacuity ---------------------------------------------------- *)
 Example C08_std_path_examples :
-  std_path (chars "m/0'/1/2h/2/1000000000") = Some [2147483648; 1; 2147483650; 2; 1000000000]%N /\
-  std_path (chars "M/44H/0'/0h/0/5") = Some [2147483692; 2147483648; 2147483648; 0; 5]%N /\
-  std_path (chars "m") = Some [] /\ std_path (chars "m/") = None /\ std_path (chars "m/2147483648") = None /\
-  std_path (chars "m/1''") = None /\ std_path (chars "m/+1") = None /\ std_path (chars "m//1") = None.
+  std_path (list_ascii_of_string "m/0'/1/2h/2/1000000000") = Some [2147483648; 1; 2147483650; 2; 1000000000]%N /\
+  std_path (list_ascii_of_string "M/44H/0'/0h/0/5") = Some [2147483692; 2147483648; 2147483648; 0; 5]%N /\
+  std_path (list_ascii_of_string "m") = Some [] /\ std_path (list_ascii_of_string "m/") = None /\ std_path (list_ascii_of_string "m/2147483648") = None /\
+  std_path (list_ascii_of_string "m/1''") = None /\ std_path (list_ascii_of_string "m/+1") = None /\ std_path (list_ascii_of_string "m//1") = None.
 Proof. repeat split; vm_compute; reflexivity. Qed.
 
 Example C08_parse_path_examples :
-  parse_path (chars "m/0'/1/2h/2/1000000000") = Ok [2147483648; 1; 2147483650; 2; 1000000000]%N /\
-  parse_path (chars "m") = Err /\ parse_path (chars "m/") = Err /\
-  parse_path (chars "m0") = Ok [0%N] /\ parse_path (chars "m/+1") = Ok [1%N] /\ parse_path (chars "m//1/") = Ok [1%N] /\
-  parse_path (chars "m/1Hh''") = Ok [2147483649%N] /\ parse_path (chars "m/1'h") = Err /\
-  parse_path (chars "m/2147483648") = Err /\ parse_path (chars "m/4294967296'") = Err /\ parse_path (chars "n/1") = Err.
+  parse_path (list_ascii_of_string "m/0'/1/2h/2/1000000000") = Ok [2147483648; 1; 2147483650; 2; 1000000000]%N /\
+  parse_path (list_ascii_of_string "m") = Err /\ parse_path (list_ascii_of_string "m/") = Err /\
+  parse_path (list_ascii_of_string "m0") = Ok [0%N] /\ parse_path (list_ascii_of_string "m/+1") = Ok [1%N] /\ parse_path (list_ascii_of_string "m//1/") = Ok [1%N] /\
+  parse_path (list_ascii_of_string "m/1Hh''") = Ok [2147483649%N] /\ parse_path (list_ascii_of_string "m/1'h") = Err /\
+  parse_path (list_ascii_of_string "m/2147483648") = Err /\ parse_path (list_ascii_of_string "m/4294967296'") = Err /\ parse_path (list_ascii_of_string "n/1") = Err.
 Proof. repeat split; vm_compute; reflexivity. Qed.
 
 (* the group-law premises are jointly satisfiable (integers modulo n, generator 1), and on that instance
